@@ -288,6 +288,7 @@ fn run(rp: &Rp) -> i32 {
         "std_struct" => replay_std_struct(rp),
         "purity" | "purity_clone" => replay_purity(rp),
         "sim_meta" => replay_sim_meta(rp),
+        "pk_prim" => replay_pk_prim(),
         "ac_meta" => replay_ac_meta(rp),
         "reject" | "reject_inf" | "reject_stream" | "reject_replace" => replay_reject(rp, &hay),
         "ac_ismatch" => {
@@ -362,6 +363,89 @@ fn replay_purity(rp: &Rp) -> i32 {
             run(&b.build(&rp.pats).expect("build"), rp)
         }
     }
+}
+
+/// Native form of `pk_prim`. (1) function: for every needle length 0..=13, every
+/// offset and every single-byte near miss, `is_prefix`/`is_prefix_raw` vs the
+/// bytewise test. (2) memory: a child process repeats the calls with haystack
+/// and needle placed flush against an inaccessible page; a fault there is an
+/// out-of-bounds read.
+fn replay_pk_prim() -> i32 {
+    use aho_corasick::verif::packed::pattern as pp;
+    let mut bad: Vec<String> = vec![];
+    for pn in 0..=13usize {
+        let needle: Vec<u8> = (0..pn).map(|i| b'a' + i as u8).collect();
+        for from in 0..=2usize {
+            for tail in 0..=2usize {
+                let mut hay: Vec<u8> = vec![b'~'; from];
+                hay.extend_from_slice(&needle);
+                hay.extend(std::iter::repeat(b'#').take(tail));
+                for flip in 0..=pn {
+                    let mut h = hay.clone();
+                    if flip < pn {
+                        h[from + flip] ^= 0x40;
+                    }
+                    let want = flip == pn;
+                    let (g1, g2) = (pp::prim_is_prefix(&h, from, &needle), pp::prim_is_prefix_raw(&h, from, &needle));
+                    if (g1 != want || g2 != want) && bad.len() < 4 {
+                        bad.push(format!("needle {:?} in {:?} at {}: is_prefix={} is_prefix_raw={} bytewise={}",
+                            String::from_utf8_lossy(&needle), String::from_utf8_lossy(&h), from, g1, g2, want));
+                    }
+                }
+            }
+        }
+    }
+    if !bad.is_empty() {
+        return report("packed verification primitives", &bad, &"bytewise prefix test", true);
+    }
+    let exe = std::env::current_exe().expect("own path");
+    let st = std::process::Command::new(exe).arg("guardchild").status().expect("spawn guard child");
+    if !st.success() {
+        return report("packed verification primitives on guard-page-backed memory", &format!("child ended with {:?}", st), &"no access outside haystack/needle", true);
+    }
+    report("packed verification primitives", &"agree; no fault on guard-page-backed memory", &"bytewise prefix test", false)
+}
+
+/// Child of `replay_pk_prim`: haystack and needle flush against PROT_NONE pages.
+pub fn guardchild() -> i32 {
+    use aho_corasick::verif::packed::pattern as pp;
+    extern "C" {
+        fn mmap(addr: *mut u8, len: usize, prot: i32, flags: i32, fd: i32, off: i64) -> *mut u8;
+        fn mprotect(addr: *mut u8, len: usize, prot: i32) -> i32;
+    }
+    const PAGE: usize = 4096;
+    // [guard][data page][guard]
+    unsafe fn region() -> *mut u8 {
+        let p = mmap(std::ptr::null_mut(), 3 * PAGE, 3, 0x22, -1, 0);
+        assert!(!p.is_null() && p as isize != -1, "mmap failed");
+        assert!(mprotect(p, PAGE, 0) == 0 && mprotect(p.add(2 * PAGE), PAGE, 0) == 0, "mprotect failed");
+        p.add(PAGE)
+    }
+    unsafe {
+        let (hp, np) = (region(), region());
+        for pn in 0..=13usize {
+            for from in 0..=2usize {
+                let hn = from + pn;
+                for flush_end in [true, false] {
+                    // flush against the following guard page, or against the preceding one
+                    let h = if flush_end { hp.add(PAGE - hn) } else { hp };
+                    let n = if flush_end { np.add(PAGE - pn) } else { np };
+                    for i in 0..hn {
+                        *h.add(i) = if i < from { b'~' } else { b'a' + (i - from) as u8 };
+                    }
+                    for i in 0..pn {
+                        *n.add(i) = b'a' + i as u8;
+                    }
+                    let hay = std::slice::from_raw_parts(h, hn);
+                    let needle = std::slice::from_raw_parts(n, pn);
+                    if !pp::prim_is_prefix(hay, from, needle) || !pp::prim_is_prefix_raw(hay, from, needle) {
+                        return 3;
+                    }
+                }
+            }
+        }
+    }
+    0
 }
 
 /// Native form of `ac_meta` / `ac_stream_init`: the top-level searcher's
